@@ -88,6 +88,97 @@ def _is_bare_raise(frame: FrameType) -> bool:
         return False
 
 
+def _handler_of(code, offset: int) -> Optional[int]:
+    """
+    Get where an exception raised at an instruction is taken to.
+
+    :param code: the code object
+    :param offset: the offset of the instruction
+    :return: the offset of the handler (the innermost one covering the instruction), or None
+    """
+    best = None
+    for entry in _parse_exception_table(code):
+        if entry.start <= offset < entry.end and (best is None or entry.start >= best.start):
+            best = entry
+    return best.target if best is not None else None
+
+
+def _handlers_from(code, offset: int) -> List[int]:
+    """
+    Get the handlers an exception travels through when it is raised at an instruction and raised again by each handler.
+
+    :param code: the code object
+    :param offset: the offset of the instruction
+    :return: the offsets of the handlers, innermost first
+    """
+    found = []
+    for _ in range(32):
+        offset = _handler_of(code, offset)
+        if offset is None or offset in found:
+            break
+        found.append(offset)
+    return found
+
+
+def _leaving(frame: FrameType, seen: List[tuple]):
+    """
+    Work out which of the exceptions seen raised in a function is the one that leaves it.
+
+    Python sends no event when a handler (finally, with, except + raise) raises what it was handling again, so the last
+    exception seen raised in the function need not be the one that leaves it: the clean-up of the handler may have
+    raised, and handled, exceptions of its own since. The exception table of the function tells in which handlers the
+    last instruction lies, and for every exception seen where it was taken to.
+
+    :param frame: the frame of the unwinding 'return' event
+    :param seen: (offset of the raising instruction, offset of its handler, the arg of the 'exception' event), in order
+    :return: the arg of the 'exception' event of the exception that leaves the function, or None if we cannot tell
+    """
+    if not seen or _parse_exception_table is None:
+        return None
+    code = frame.f_code
+    last = frame.f_lasti
+    if seen[-1][0] == last:
+        # raised where the function ended: not handled at all
+        return seen[-1][2]
+    # the blocks that handle an exception (they start by pushing it), and the clean-up blocks of those
+    blocks = set()
+    for entry in _parse_exception_table(code):
+        if dis.opname[code.co_code[entry.target]] == 'PUSH_EXC_INFO':
+            blocks.add(entry.target)
+            cleanup = _handler_of(code, entry.target)
+            if cleanup is not None:
+                blocks.add(cleanup)
+    inside = [offset for offset in _handlers_from(code, last) if offset in blocks]
+    candidates = []
+    for index, (_, handler, arg) in enumerate(seen):
+        if handler is None:
+            continue
+        near = [inside.index(offset) for offset in (handler, _handler_of(code, handler)) if offset in inside]
+        far = [inside.index(offset) for offset in _handlers_from(code, handler) if offset in inside]
+        if near:
+            candidates.append((min(near), 0, index, arg))
+        elif far:
+            candidates.append((min(far), 1, index, arg))
+    if not candidates:
+        return None
+    best = min((candidate[0], candidate[1]) for candidate in candidates)
+    tied = [candidate for candidate in candidates if (candidate[0], candidate[1]) == best]
+
+    def handled_before(exception):
+        found = []
+        context = exception.__context__
+        while context is not None and len(found) < 32:
+            found.append(context)
+            context = context.__context__
+        return found
+
+    # of several that ended up in the same handler: the one the others were raised while handling
+    for candidate in tied:
+        if all(candidate is other or candidate[3][1] in handled_before(other[3][1]) for other in tied):
+            return candidate[3]
+    return max(tied, key=lambda candidate: candidate[2])[3]
+
+
 class CallbackContext(Location, ActionCallback):
     """
     Callback Context deals with ensuring we close any pending actions created by TriggerHandler.
@@ -112,6 +203,7 @@ class CallbackContext(Location, ActionCallback):
         in_flight = sys.exc_info()
         self.__raised = in_flight if in_flight[1] is not None and event == 'line' else None
         self.__handled = None
+        self.__seen: List[tuple] = []
 
     def at_location(self, event: str, file: str, line: int, function_name: str, frame: FrameType) -> bool:
         """
@@ -151,6 +243,12 @@ class CallbackContext(Location, ActionCallback):
             return
         if event == 'exception':
             self.__raised = arg
+            if _parse_exception_table is not None:
+                try:
+                    self.__seen.append((frame.f_lasti, _handler_of(frame.f_code, frame.f_lasti), arg))
+                    del self.__seen[:-16]
+                except Exception:
+                    pass
         elif event == 'line':
             # what the function is handling on this line (python sends no event when that is raised again)
             handled = sys.exc_info()
@@ -178,7 +276,13 @@ class CallbackContext(Location, ActionCallback):
             # the function does not return: an exception is leaving it - the last one we saw raised in it, unless it
             # ends with a bare `raise`: then it is the one that was being handled there
             event, arg = 'exception', self.__raised
-            if self.__handled is not None and _is_bare_raise(frame):
+            try:
+                leaving = _leaving(frame, self.__seen)
+            except Exception:
+                leaving = None
+            if leaving is not None:
+                arg = leaving
+            elif self.__handled is not None and _is_bare_raise(frame):
                 arg = self.__handled
         for callback in self.__callbacks:
             try:
